@@ -168,11 +168,22 @@ func (s *sim) dump() *dumpT {
 	d := &dumpT{text: map[string]string{}, raw: map[string]interface{}{}}
 	for _, k := range s.watchKeys() {
 		for _, rd := range coreReads {
+			if rd[0] == "get" && s.hllKeys[k] {
+				// the string view of a hyperloglog key embeds a cached count and
+				// lags behind the write-back cache: observe the count instead
+				r := s.directRead("pfcount", k)
+				d.text[entryName(rd, k)] = "HLL pfcount=" + fmtReply(r)
+				d.raw[entryName(rd, k)] = nodeh.RErr("hll")
+				continue
+			}
 			r := s.directRead(append([]string{rd[0], k}, rd[1:]...)...)
 			d.text[entryName(rd, k)] = fmtReply(r)
 			d.raw[entryName(rd, k)] = r
 		}
 		for _, rd := range otherReads {
+			if rd[0] == "bitcount" && s.hllKeys[k] {
+				continue
+			}
 			r := s.directRead(append([]string{rd[0], k}, rd[1:]...)...)
 			d.text[entryName(rd, k)] = fmtReply(r)
 		}
